@@ -1,7 +1,149 @@
 (** C19 — pinned statements. Nothing but statements, [exact], and assumption audits. *)
-From TU Require Import Base C19_Model C19_Proofs.
+From TU Require Import Base C19_Model C19_Proofs C19_Count C19_Check.
+From Coq Require Import Permutation.
+Open Scope N_scope.
 
-(** Pair replacement preserves each word's bytes. *)
+(** Pair replacement ([replace_pair_in_word]) preserves each word's bytes … *)
 Theorem replace_concat : forall (p : pair) (w : word), concat (replace_in_word p w) = concat w.
 Proof. exact replace_concat_l. Qed.
 Print Assumptions replace_concat.
+
+(** … hence every state of a run spells the same words with the same counts. *)
+Theorem run_bytes : forall ps c,
+  map (fun wk => (concat (fst wk), snd wk)) (state_after c ps) = map (fun wk => (concat (fst wk), snd wk)) c.
+Proof. exact state_after_bytes. Qed.
+Print Assumptions run_bytes.
+
+(** Every accepted run (any tie-breaking) from a byte-level vocabulary gives a
+    well-formed table: at most [k] entries (ids are the list positions 0..n-1),
+    entry i is the concatenation of two tokens that are single bytes or earlier
+    entries, and has at least two bytes. *)
+Theorem run_table_wf : forall c k ps, CorpusOK [] c -> Run c k ps ->
+  (length ps <= k)%nat /\
+  forall i p, nth_error ps i = Some p ->
+    TokOK (map merge (firstn i ps)) (fst p) /\ TokOK (map merge (firstn i ps)) (snd p)
+    /\ (2 <= length (merge p))%nat.
+Proof. exact run_table_wf_l. Qed.
+Print Assumptions run_table_wf.
+
+(** Entry i is an adjacent pair that occurs, with positive frequency, and no pair
+    at all is more frequent in the corpus as segmented by entries 0..i-1. *)
+Theorem run_entry_max : forall c k ps, Run c k ps ->
+  forall i p, nth_error ps i = Some p -> StepOK (state_after c (firstn i ps)) p.
+Proof. exact run_entry_max_l. Qed.
+Print Assumptions run_entry_max.
+
+(** A run is shorter than the budget only if no pair with positive frequency is left. *)
+Theorem run_short_exhausted : forall c k ps, Run c k ps -> (length ps < k)%nat -> Exhausted (state_after c ps).
+Proof. exact run_short_exhausted_l. Qed.
+Print Assumptions run_short_exhausted.
+
+(** The boolean step/exhaustion tests are the Prop-level notions. *)
+Theorem step_ok_spec : forall c p, step_okb c p = true <-> StepOK c p.
+Proof. exact step_okb_spec. Qed.
+Print Assumptions step_ok_spec.
+Theorem exhausted_spec : forall c, exhaustedb c = true <-> Exhausted c.
+Proof. exact exhaustedb_spec. Qed.
+Print Assumptions exhausted_spec.
+
+(** The executable acceptance test used on the implementation's table is exactly
+    the run relation (sound and complete, so it never raises a false alarm on a
+    table some tie-breaking could have produced). *)
+Theorem accepts_sound : forall es c k, accepts c k es = true -> exists ps, Run c k ps /\ map merge ps = es.
+Proof. exact accepts_sound_l. Qed.
+Print Assumptions accepts_sound.
+Theorem accepts_complete : forall c k ps, Run c k ps -> accepts c k (map merge ps) = true.
+Proof. exact accepts_complete_l. Qed.
+Print Assumptions accepts_complete.
+
+(** The deterministic trainer of the model (first maximal pair) is an accepted run. *)
+Theorem train_run : forall k c, Run c k (train k c).
+Proof. exact train_run_l. Qed.
+Print Assumptions train_run.
+
+(** Word counting: the folded map holds, for every word, its number of
+    occurrences in all lines … *)
+Theorem count_lookup : forall ls x, lookup (count_all ls) x = occ x (concat ls).
+Proof. exact lookup_count_all_l. Qed.
+Print Assumptions count_lookup.
+
+(** … so counts and pair frequencies are invariant under every permutation and
+    every regrouping of the lines (arrival order, batches per thread) … *)
+Theorem count_schedule_free : forall ls ls', Permutation (concat ls) (concat ls') ->
+  (forall w, lookup (count_all ls) w = lookup (count_all ls') w) /\
+  (forall p, pair_freq (corpus_of (count_all ls)) p = pair_freq (corpus_of (count_all ls')) p).
+Proof. exact count_schedule_free_l. Qed.
+Print Assumptions count_schedule_free.
+
+(** … and the set of accepted runs (tables) is the same. *)
+Theorem train_schedule_free : forall ls ls', Permutation (concat ls) (concat ls') ->
+  forall k ps, Run (corpus_of (count_all ls)) k ps <-> Run (corpus_of (count_all ls')) k ps.
+Proof. exact train_schedule_free_l. Qed.
+Print Assumptions train_schedule_free.
+
+(** The counting pool (any number of workers, any channel capacity, any
+    schedule): when the fold has ended each line has been received exactly once; *)
+Theorem pool_terminal : forall cap lines threads s, pool_reach cap (pool_init lines threads) s ->
+  pool_done s -> Permutation (recv s) lines.
+Proof. exact pool_terminal_l. Qed.
+Print Assumptions pool_terminal.
+
+(** no reachable state is stuck before that (>= 1 worker, capacity >= 1); *)
+Theorem pool_progress : forall cap lines threads s, (0 < cap)%nat -> (0 < threads)%nat ->
+  pool_reach cap (pool_init lines threads) s -> ~ pool_done s -> exists t, pool_step cap s t.
+Proof. exact pool_progress_l. Qed.
+Print Assumptions pool_progress.
+
+(** every schedule is finite; *)
+Theorem pool_finite : forall cap s t, pool_step cap s t -> (pool_measure t < pool_measure s)%nat.
+Proof. exact pool_step_decreases. Qed.
+Print Assumptions pool_finite.
+
+(** and the accepted runs do not depend on the schedule. *)
+Theorem pool_run : forall cap lines threads s, pool_reach cap (pool_init lines threads) s -> pool_done s ->
+  forall k ps, Run (corpus_of (count_all (recv s))) k ps <-> Run (corpus_of (count_all lines)) k ps.
+Proof. exact pool_run_l. Qed.
+Print Assumptions pool_run.
+
+(** The executable statement evaluated on every implementation output holds of
+    the model's own output … *)
+Theorem check_run : forall v, wf_input v -> check_C19 v (run_C19 v) = true.
+Proof. exact check_run_l. Qed.
+Print Assumptions check_run.
+
+(** … and whenever it holds of an output, the table in that output is the table
+    of an accepted run, with everything the theorems above say about runs:
+    ids exactly 0..n-1, n <= num_merges, entry i a positive maximal pair of the
+    state after entries 0..i-1 built from bytes or earlier entries, and short
+    only if the corpus is exhausted. *)
+Theorem checked_table : forall v out, check_C19 v out = true ->
+  out_ids out = map Z.of_nat (seq 0 (length (out_entries out))) /\
+  exists ps, map merge ps = out_entries out /\ (length ps <= num_merges v)%nat /\
+    (forall i p, nth_error ps i = Some p ->
+       StepOK (state_after (in_corpus v) (firstn i ps)) p /\
+       TokOK (firstn i (out_entries out)) (fst p) /\ TokOK (firstn i (out_entries out)) (snd p) /\
+       (2 <= length (merge p))%nat) /\
+    ((length ps < num_merges v)%nat -> Exhausted (state_after (in_corpus v) ps)).
+Proof. exact checked_table_l. Qed.
+Print Assumptions checked_table.
+
+(** Non-vacuity.  Corpus "ab ab", 64 merges: the run [ab; " ab"] is accepted and
+    stops early because the corpus is exhausted; the table the pinned tree wrote
+    (defect D8: {" ab":1, ab:63}) is rejected. *)
+Definition ex_in : val :=
+  L [I 320; I 0; I 0; I 0; L []; L []; L [L [L [I 97; I 98; I 32; I 97; I 98]]]; I 1; L []]%Z.
+Example ex_corpus : in_corpus ex_in = [([[97]; [98]], 1); ([[32]; [97]; [98]], 1)].
+Proof. vm_compute. reflexivity. Qed.
+Example ex_accepts : accepts (in_corpus ex_in) (num_merges ex_in) [[97; 98]; [32; 97; 98]] = true.
+Proof. vm_compute. reflexivity. Qed.
+Example ex_too_short : accepts (in_corpus ex_in) (num_merges ex_in) [[97; 98]] = false.
+Proof. vm_compute. reflexivity. Qed.
+Example ex_wf : wf_input ex_in.
+Proof. constructor. Qed.
+Example ex_d8_rejected :
+  ids_from 0 (out_ids (L [L [L [I 1; L [I 32; I 97; I 98]]; L [I 63; L [I 97; I 98]]]]%Z)) = false.
+Proof. vm_compute. reflexivity. Qed.
+(** an overlapping pair: "aaa" holds (a,a) twice, replacement yields [aa; a] *)
+Example ex_overlap : pair_freq [([[97]; [97]; [97]], 1)] ([97], [97]) = 2
+  /\ replace_in_word ([97], [97]) [[97]; [97]; [97]] = [[97; 97]; [97]].
+Proof. vm_compute. split; reflexivity. Qed.
